@@ -17,7 +17,12 @@
 #ifndef VF_ALLOC
 #error "mon_C16 uses the allocator ledger (config asan-alloc)"
 #endif
-uint32_t _hashVertex(const LatLng *vertex, int res, int numBuckets); /* library hash, for the F2 signature only */
+/* The bucket function of vertexGraph.c as it stands in the tree where finding F2 was made, copied here on purpose: the F2
+ * signature asks "does THIS quantisation separate two computations of one shared vertex?".  Calling the library's own
+ * _hashVertex instead would let a *changed* hash (which splits vertices elsewhere) pass as the known finding. */
+static uint32_t f2_bucket(const LatLng *vertex, int res, int numBuckets) {
+    return (uint32_t)fmod(fabs((vertex->lat + vertex->lng) * pow(10, 15 - res)), numBuckets);
+}
 
 static int cmp_u64(const void *a, const void *b) {
     uint64_t x = *(const uint64_t *)a, y = *(const uint64_t *)b;
@@ -115,7 +120,7 @@ static int hash_split(const vec *S, int res) {
             for (int p = 0; p < A.n && !found; p++)
                 for (int q = 0; q < B.n; q++) {
                     V3 d = v3_sub(A.v[p], B.v[q]);
-                    if (v3_dot(d, d) < 1e-24L && _hashVertex(&A.g[p], res, nb) != _hashVertex(&B.g[q], res, nb)) {
+                    if (v3_dot(d, d) < 1e-24L && f2_bucket(&A.g[p], res, nb) != f2_bucket(&B.g[q], res, nb)) {
                         found = 1;
                         break;
                     }
